@@ -31,6 +31,8 @@ def run(ctx):
     rep.floor('R09.a', 150)
     skippers.depth_budget(rep, 'R09.d', prog, include_unsafe=False)
     skippers.progress(rep, 'R09.g', prog)
+    import invariants
+    invariants.varint_processor(rep, 'R09.v', prog)
     # generated decoders of the corpus (construct-level keys)
     import gen_thrift
     gprog, g, files = gen_thrift.load()
